@@ -40,9 +40,10 @@ theorem carroll_dplus_EdS (hO : ρ "cosmo.Om0" = 1) (hL : ρ "cosmo.Ode0" = 0) (
   simp only [hO, hL, zpow_ofNat]
   have hp : (0:ℝ) < 1 + ρ "z" := by linarith
   have h1 : (1:ℝ) / (1 / (1 + ρ "z")) ^ 3 ≠ 0 := by positivity
-  norm_num
-  field_simp
-  norm_num
+  first
+  | (norm_num; field_simp; norm_num; done)
+  | (norm_num; field_simp; ring_nf; done)
+  | (norm_num; field_simp; done)
 /-- … so (1+z)·growth_factor(z) = 1 -/
 theorem carroll_EdS (hO : ρ "cosmo.Om0" = 1) (hL : ρ "cosmo.Ode0" = 0) (hz : 0 ≤ ρ "z") :
     (1 + ρ "z") * evalR opq ρ Gen.Growth.Carroll1992_growth_factor = 1 := by
@@ -58,7 +59,7 @@ theorem carroll_EdS (hO : ρ "cosmo.Om0" = 1) (hL : ρ "cosmo.Ode0" = 0) (hz : 0
 theorem carroll_growth_rate_formula :
     evalR opq ρ Gen.Growth.Carroll1992_growth_rate =
       -1 - opq "cosmo.Om" (ρ "z") / 2 + opq "cosmo.Ode" (ρ "z") + 5 * opq "cosmo.Om" (ρ "z") / (2 * evalR opq ρ Gen.Growth.Carroll1992_growth_factor) := by
-  simp only [Gen.Growth.Carroll1992_growth_rate, Gen.Growth.Carroll1992_growth_factor]; expr_unfold; push_cast; norm_num
+  simp only [Gen.Growth.Carroll1992_growth_rate, Gen.Growth.Carroll1992_growth_factor]; expr_unfold <;> first | (push_cast; norm_num; done) | (push_cast; norm_num; ring_nf; done) | expr_finish
 
 /-- **known finding, formalised**: in Einstein–de Sitter, where the true growth rate −dlnD/dln(1+z) is exactly 1 (D = 1/(1+z)),
     the code's growth_rate evaluates to (5/2)(1+z) − 3/2 — different from 1 at every z > 0 -/
